@@ -535,6 +535,8 @@ class ModelGen:
                     self.feat("uncached_cells")
                 for t in tags:
                     self.feat("syn_" + t)
+                for t in scope_shapes(src):
+                    self.feat("shape_" + t)
                 s.own_cells[cn] = {"name": cn, "src": src, "cached": cached}
                 if cn in ALL_BUILTINS:
                     self.feat("cells_shadowing_builtin")
@@ -835,6 +837,14 @@ class FormulaGen:
             self.tag("comprehension_variable_named_like_global")
         return v
 
+    def comp_iter(self, v, d, locs):
+        """the (first) iterable of a comprehension whose variable is `v`: when `v` is an int-valued global of the
+        formula, mostly the idiom `for n in range(n)` - global in the iterable, loop variable after it"""
+        if v in self.view["int"] and v not in self.shadow and v not in locs and self.rng.random() < 0.6:
+            self.tag("loop_variable_named_like_global_of_its_iterable")
+            return "range(%s)" % self.nonneg(v, 3)
+        return self.iter_expr(d, locs)
+
     def scoped_expr(self, locs):
         """an int expression of exportscope.ScopeExprGen over the int-valued globals of this position: every binder
         (comprehension 1-3 deep, lambda, generator expression) picks its variable among the global names, the names
@@ -867,10 +877,14 @@ class FormulaGen:
             self.ncalls += 1
         avoid = taken | self.global_universe | self.mg.shadowed | set(locs)
         fresh = [n for n in ["i", "j", "q", "r", "s", "z", "u0", "u1", "u2", "u3"] if n not in avoid] or ["u7", "u8", "u9"]
-        gen = SC.ScopeExprGen(self.rng, globs, fresh=fresh, budget=self.rng.choice([6, 9, 12]),
-                              avoid_builtins=() if self.ok_builtin("len") else ("len",), allow_walrus=False)
+        gen = SC.ScopeExprGen(self.rng, globs, fresh=fresh, budget=self.rng.choice([8, 11, 14]), p_shadow=0.8,
+                              p_nest=0.55, avoid_builtins=() if self.ok_builtin("len") else ("len",),
+                              allow_walrus=False)
         self.budget -= 4
-        e = gen.int_expr(self.rng.choice([2, 3]), list(locs))
+        if self.rng.random() < 0.6:
+            e = "sum(%s)" % gen.seq_expr(self.rng.choice([2, 3]), list(locs), "int")      # a comprehension for sure
+        else:
+            e = gen.int_expr(self.rng.choice([2, 3]), list(locs))
         for t in sorted(gen.tags):
             self.tag("scoped_" + t)
         self.tag("scoped_expression")
@@ -980,20 +994,20 @@ class FormulaGen:
         if f == "listcomp":
             self.tag("list_comprehension")
             v = self.comp_var(locs)
-            it = self.iter_expr(d - 1, locs)
+            it = self.comp_iter(v, d - 1, locs)
             body = self.with_shadow([v], lambda: self.int_expr(d - 1, locs + [v]))
             return "[%s for %s in %s]" % (body, v, it)
         if f == "tuplegen":
             self.tag("generator_expression")
             v = self.comp_var(locs)
-            it = self.iter_expr(d - 1, locs)
+            it = self.comp_iter(v, d - 1, locs)
             body = self.with_shadow([v], lambda: self.int_expr(d - 1, locs + [v]))
             return "tuple(%s for %s in %s)" % (body, v, it)
         if f == "filtered":
             self.tag("list_comprehension")
             self.tag("comprehension_condition")
             v = self.comp_var(locs)
-            it = self.iter_expr(d - 1, locs)
+            it = self.comp_iter(v, d - 1, locs)
             body, cond = self.with_shadow([v], lambda: (self.int_expr(d - 1, locs + [v]),
                                                         self.int_expr(d - 1, locs + [v])))
             return "[%s for %s in %s if %s != %s]" % (body, v, it, cond, self.lit())
@@ -1006,25 +1020,27 @@ class FormulaGen:
             if r < 0.35:
                 return "[%s for %s in range(%d) for %s in range(%s + 1)]" % (body, v, rng.randint(1, 2), w, v)
             inner_it = self.with_shadow([v], lambda: self.nonneg(self.int_expr(d - 1, locs + [v]), 3))
+            outer_it = self.comp_iter(v, 0, locs)
             if r < 0.7:
-                return "[sum([%s for %s in range(%s)]) for %s in range(%d)]" % (body, w, inner_it, v, rng.randint(1, 3))
+                return "[sum([%s for %s in range(%s)]) for %s in %s]" % (body, w, inner_it, v, outer_it)
             # a list of lists, flattened: the inner element / condition reads the outer variable
             self.tag("comprehension_condition")
             cond = self.with_shadow([v, w], lambda: self.int_expr(d - 1, locs + [v, w]))
-            return "[e_ for l_ in [[%s for %s in range(%s) if %s != %s] for %s in range(%d)] for e_ in l_]" % (
-                body, w, inner_it, cond, self.lit(), v, rng.randint(1, 3))
+            return "[e_ for l_ in [[%s for %s in range(%s) if %s != %s] for %s in %s] for e_ in l_]" % (
+                body, w, inner_it, cond, self.lit(), v, outer_it)
         if f == "dictcomp":
             self.tag("dict_comprehension")
             v = self.comp_var(locs)
             body = self.with_shadow([v], lambda: self.int_expr(d - 1, locs + [v]))
-            return "list({%s: %s for %s in range(%d)}.values())" % (v, body, v, rng.randint(1, 3)) \
+            it = self.comp_iter(v, 0, locs)
+            return "list({%s: %s for %s in %s}.values())" % (v, body, v, it) \
                 if self.ok_builtin("list") else \
-                "[vv for vv in {%s: %s for %s in range(%d)}.values()]" % (v, body, v, rng.randint(1, 3))
+                "[vv for vv in {%s: %s for %s in %s}.values()]" % (v, body, v, it)
         if f == "setcomp" and self.ok_builtin("sorted"):
             self.tag("set_comprehension")
             v = self.comp_var(locs)
             body = self.with_shadow([v], lambda: self.int_expr(d - 1, locs + [v]))
-            return "sorted({%s for %s in range(%d)})" % (body, v, rng.randint(1, 3))
+            return "sorted({%s for %s in %s})" % (body, v, self.comp_iter(v, 0, locs))
         if f == "concat":
             a = self.seq_expr(d - 1, locs)
             b = self.seq_expr(d - 1, locs)
@@ -1055,6 +1071,11 @@ class FormulaGen:
         """what the cells returns: mostly an int, sometimes a tuple / list / str / dict"""
         rng = self.rng
         r = rng.random()
+        if not self.simple and rng.random() < (0.35 if self.mg.profile in ("syntax", "shadow") else 0.2):
+            # on purpose: binders that shadow the formula's globals (comprehensions 1-3 deep, lambdas ...)
+            e = self.scoped_expr(locs)
+            if e:
+                return e if self.mg.ret_int[self.cname] else "(%s, %s)" % (e, self.g_int(locs))
         if self.mg.ret_int[self.cname] or self.simple:
             return self.int_expr(d, locs)
         r = 0.6 + 0.4 * r
@@ -1244,6 +1265,91 @@ def _globals_anywhere(src):
         for ch in t.get_children():
             rec(ch, False)
     rec(top, True)
+    return res
+
+
+def scope_shapes(src):
+    """which of the scoping shapes the exporter has to get right occur in a formula (coverage bookkeeping):
+      comp_var_global        a comprehension variable that is also a global name of the formula
+      nested_outer_var_used  ... of a comprehension that contains another one DIRECTLY (no lambda / generator
+                             expression between them) whose element / condition / later iterables read it
+      nested_3_deep          the same, the reader two comprehensions further in
+      bound_inner_global_outer  bound by an inner comprehension, read as a global by an enclosing one
+      keyword_like_global    a keyword argument named like a global name of the formula
+      parenthesised_global   a global name in its own parentheses"""
+    res = set()
+    try:
+        fn = _func_node(src)
+        gl = _globals_anywhere(src)
+    except SyntaxError:
+        return res
+    comps = (ast.ListComp, ast.SetComp, ast.DictComp)
+    barrier = (ast.Lambda, ast.FunctionDef, ast.GeneratorExp)
+
+    def targets(c):
+        return set(t.id for g in c.generators for t in ast.walk(g.target) if isinstance(t, ast.Name))
+
+    def inner_parts(c):
+        """the parts of comprehension c that are evaluated in c's own scope"""
+        parts = [c.key, c.value] if isinstance(c, ast.DictComp) else [c.elt]
+        for k, g in enumerate(c.generators):
+            parts.extend(g.ifs)
+            if k:
+                parts.append(g.iter)
+        return parts
+
+    def walk_no_barrier(node, depth, bound, top):
+        for ch in ast.iter_child_nodes(node):
+            if isinstance(ch, barrier):
+                continue
+            if isinstance(ch, comps):
+                tg = targets(ch)
+                if depth >= 1:
+                    reads = set(n.id for part in inner_parts(ch) for n in ast.walk(part)
+                                if isinstance(n, ast.Name) and isinstance(n.ctx, ast.Load))
+                    hit = (reads - tg) & bound & gl
+                    if hit:
+                        res.add("nested_outer_var_used")
+                        if any(x in top for x in hit) and depth >= 2:
+                            res.add("nested_3_deep")
+                if tg & gl:
+                    res.add("comp_var_global")
+                # the first iterable belongs to the enclosing scope
+                walk_no_barrier(ch.generators[0].iter, depth, bound, top)
+                for part in inner_parts(ch):
+                    walk_no_barrier(ast.Expression(part), depth + 1, bound | tg, top if depth else tg)
+                # a name this comprehension binds, read by an ENCLOSING comprehension as a global
+            else:
+                walk_no_barrier(ch, depth, bound, top)
+    walk_no_barrier(fn, 0, set(), set())
+    for c in ast.walk(fn):
+        if isinstance(c, comps):
+            outer_reads = set()
+            for part in inner_parts(c):
+                for n in ast.walk(part):
+                    if isinstance(n, comps) and n is not c:
+                        inner_t = targets(n)
+                        own = set(x.id for x in ast.walk(n) if isinstance(x, ast.Name))
+                        # names read in c's parts outside n
+                        outer_reads |= inner_t
+            if outer_reads:
+                reads_here = set()
+                stack = list(inner_parts(c))
+                while stack:
+                    nd = stack.pop()
+                    if isinstance(nd, comps + barrier) and nd is not c:
+                        continue
+                    if isinstance(nd, ast.Name) and isinstance(nd.ctx, ast.Load):
+                        reads_here.add(nd.id)
+                    stack.extend(ast.iter_child_nodes(nd))
+                if (reads_here & outer_reads & gl) - targets(c):
+                    res.add("bound_inner_global_outer")
+    kws = set(k.arg for n in ast.walk(fn) if isinstance(n, ast.Call) for k in n.keywords if k.arg)
+    if kws & gl:
+        res.add("keyword_like_global")
+    for mo in _PAREN_NAME.finditer(src):
+        if mo.group(0).strip("() \t") in gl:
+            res.add("parenthesised_global")
     return res
 
 
